@@ -46,6 +46,24 @@ def step (s : Unit) (line : String) : Unit × String :=
                 | some b => s!"decision-unjustified {b}"
                 | none => "good"
       | _, _, _, _ => "bad-op"
+    | "commitq" :: rest =>
+      -- block sync: only the hypothesis of `C01_blocksync_safe` is checked — the adopted block has a
+      -- commit quorum among the (independently verified) precommits listed
+      match (kv rest "pw").bind natList, (kv rest "F").bind natList, kv rest "ev", (kv rest "dec").bind natList with
+      | some pws, some fs, some evs, some decs =>
+        let vals := List.range pws.length
+        let pw : Nat → Nat := fun v => pws.getD v 0
+        let F : Nat → Bool := fun v => fs.contains v
+        let evl := if evs = "-" then some [] else (evs.splitOn ";").mapM parseEv
+        match evl with
+        | none => "bad-op"
+        | some tr =>
+          if !(decide (3 * power vals pw F < power vals pw (fun _ => true))) then "too-many-faulty"
+          else
+            match decs.find? (fun b => !(decisionOK vals pw tr b)) with
+            | some b => s!"decision-unjustified {b}"
+            | none => "good"
+      | _, _, _, _ => "bad-op"
     | _ => "bad-op"
   (s, out)
 
